@@ -456,6 +456,11 @@ func RunMain(id, tier string) int {
 			passes = append(passes, pass{filepath.Join(Root, "bin", "vcheck"), "plain"})
 		}
 	}
+	if plan.AltToolchain {
+		if _, err := os.Stat(filepath.Join(Root, "bin", "vcheck.alt")); err == nil {
+			passes = append(passes, pass{filepath.Join(Root, "bin", "vcheck.alt"), "alt-toolchain"})
+		}
+	}
 	nshards := runtime.NumCPU()
 	if nshards > 16 {
 		nshards = 16
